@@ -51,7 +51,7 @@ def main(path):
             ev = [e for e in r['events'] if e['ev'] != 'bytes_in']
             for (c, i) in mine[:2]:
                 print('    around event #%d:' % i)
-                for k in range(max(0, i - 7), min(len(ev), i + 2)):
+                for k in range(max(0, i - int(os.environ.get('VERIF_REPLAY_WINDOW', '7'))), min(len(ev), i + 2)):
                     e = ev[k]
                     print('      %s%3d %s' % ('>>' if k == i - 1 else '  ', k + 1, {a: b for a, b in e.items() if b not in (0, '', -1, []) and a != 'i'}))
             if mine or r['status'] != 'ok':
